@@ -94,6 +94,12 @@ def check_pair(res, a, b, A=None, B=None):
     # union -----------------------------------------------------------------
     # the operands have been looked at before they are combined (shape, centre, extent of both)
     _call(res, lambda: (A.shape, A.center, A.extent, B.shape, B.center, B.extent))
+    for name, fn in (('union', lambda: A.union(B)), ('or', lambda: A | B), ('intersection', lambda: A.intersection(B)), ('and', lambda: A & B),
+                     ('intersection_rev', lambda: B & A)):
+        ok0, r0 = _call(res, fn)
+        if ok0 and r0 is not None and (r0 is A or r0 is B):
+            _V(res, 'result_aliases_operand', case, f'{name} returned one of its operands itself ({"the first" if r0 is A else "the second"}), not a new box: '
+                                                    f'editing the result would edit the operand', 'a new box', 'an operand')
     for name, fn in (('union', lambda: A.union(B)), ('or', lambda: A | B)):
         ok, u = _call(res, fn)
         if not ok:
@@ -344,6 +350,22 @@ def _ff_history(K, rect):
     b1.iymax += 3
     b2 = K.from_float(*rect)
     return b2 is b1, _tup(b2)
+
+
+def check_from_float_huge(res, rect):
+    """Limits beyond 2^53 (no half pixels exist there): the box still covers the rectangle and is at most one pixel larger per side."""
+    from regions import RegionBoundingBox
+    case = {'op': 'from_float_huge', 'rect': [float(v) for v in rect]}
+    res.transitions += 1
+    ok, b = _call(res, lambda: RegionBoundingBox.from_float(*rect))
+    if not ok:
+        _V(res, 'from_float_raises', case, f'from_float{tuple(rect)} raised {b}')
+        return
+    bt = _tup(b)
+    x0, x1, y0, y1 = (int(Fraction(float(v))) for v in rect)
+    good = (x0 - 1 <= bt[0] <= x0 and x1 <= bt[1] <= x1 + 1 and y0 - 1 <= bt[2] <= y0 + 1 and y1 <= bt[3] <= y1 + 1)
+    if not good:
+        _V(res, 'from_float_wrong', case, f'from_float{tuple(rect)} = {bt}: does not cover the rectangle within one pixel per side', [x0, x1 + 1, y0, y1 + 1], list(bt))
 
 
 def check_from_float(res, rect):
@@ -710,6 +732,11 @@ def run_shard(shard, tier, seed):
                         res.evaluations += 1
                         check_typed_pair(res, a, b, ta, tb)
         # ... and the centre of such a box is the correctly rounded midpoint of its limits (when the midpoint is a double, exactly it)
+        for big in (1e19, 2.0 ** 63, -(2.0 ** 63) - 4096.0, 2.0 ** 70, 1e17):
+            res.states += 1
+            res.evaluations += 1
+            check_from_float_huge(res, (big, big + 2.0 ** 14 if big > 0 else big + 2.0 ** 14, 0.0, 3.0))
+            check_from_float_huge(res, (0.0, 3.0, big, big + 2.0 ** 14))
         for m in (2 ** 53 + 1, -(2 ** 53) - 1, 2 ** 54 + 2, 2 ** 60 + 4):
             for (nx, ny) in ((3, 3), (5, 1), (1, 9), (4, 2)):
                 res.states += 1
@@ -750,6 +777,8 @@ def replay(case):
         check_box(res, tuple(case['a']), tname=case.get('t'))
     elif op == 'huge_center':
         check_huge_center(res, tuple(case['a']))
+    elif op == 'from_float_huge':
+        check_from_float_huge(res, tuple(case['rect']))
     elif op == 'slices':
         check_slices(res, tuple(case['a']), tuple(case['shape']), tname=case.get('t'))
     elif op == 'from_float':
